@@ -67,6 +67,15 @@ def repo_head():
         return "unknown"
 
 
+def _die_with_parent():
+    """PR_SET_PDEATHSIG: a worker must not outlive a runner that was killed (e.g. by an outer timeout)"""
+    try:
+        import ctypes
+        ctypes.CDLL(None).prctl(1, signal.SIGKILL)
+    except Exception:  # noqa: B902
+        pass
+
+
 class Worker(object):
     def __init__(self, modname, flavour, tier, index, verif_seed, n, workdir, extra=(), autostart=True, restart=0, tag=""):
         self.modname, self.flavour, self.tier, self.index = modname, flavour, tier, index
@@ -79,14 +88,28 @@ class Worker(object):
         if autostart:
             self.start()
 
+    def reap(self):
+        """kill whatever the worker's process group still holds (forked children, sanitizer symbolizer processes)"""
+        if self.proc is not None:
+            try:
+                os.killpg(self.proc.pid, signal.SIGKILL)
+            except OSError:
+                pass
+            try:
+                self.proc.wait(timeout=10)
+            except Exception:  # noqa: B902
+                pass
+
     def start(self):
+        self.reap()
         check_id = self.modname.split(".")[-1].upper()
         self.seed = derive_seed(self.verif_seed, check_id + "/" + self.flavour, self.index, self.restart)
         self.prefix = os.path.join(self.workdir, "w%s%s_%d_%d" % (self.tag, self.flavour, self.index, self.restart))
         self.errfile = open(self.prefix + ".stderr", "w")
         self.proc = subprocess.Popen([PY, "-m", "vlib.worker", self.modname, self.flavour, self.tier, str(self.seed),
                                       str(max(1, self.n - self.done)), self.prefix] + self.extra,
-                                     cwd=VERIF, env=worker_env(self.flavour), stdout=self.errfile, stderr=self.errfile)
+                                     cwd=VERIF, env=worker_env(self.flavour), stdout=self.errfile, stderr=self.errfile,
+                                     start_new_session=True, preexec_fn=_die_with_parent)
         self.started = time.time()
 
     def result(self):
@@ -242,7 +265,7 @@ def run_check(check_id, tier, collect=False, plan_override=None):
             res = w.result()
             if rc is None:
                 if time.time() - t0 > wall_cap:
-                    w.proc.kill()
+                    w.reap()
                     w.proc.wait()
                     budget_exhausted = True
                     if res:
@@ -251,7 +274,7 @@ def run_check(check_id, tier, collect=False, plan_override=None):
                     finished.append(w)
                 elif w.slot_age() > case_timeout and "--fork-each" not in w.extra:
                     # hang candidate: kill and treat like a crash with clause hang
-                    w.proc.kill()
+                    w.reap()
                     w.proc.wait()
                     _handle_death(w, mod, known, check_id, verif_seed, violations, crash_known, pending, finished, "hang", harness_errors)
                 continue
@@ -269,13 +292,16 @@ def run_check(check_id, tier, collect=False, plan_override=None):
         if violations and not collect:
             # stop the fleet at the first confirmed unknown violation
             for w in pending:
-                w.proc.kill()
+                w.reap()
                 w.proc.wait()
                 r = w.result()
                 if r:
                     w.results.append(r)
                 finished.append(w)
             pending = []
+
+    for w in finished:
+        w.reap()
 
     # ---- merge
     total = collections.Counter()
@@ -414,8 +440,9 @@ def _handle_death(w, mod, known, check_id, verif_seed, violations, crash_known, 
             while m.proc.poll() is None and time.time() - t1 < 240:
                 time.sleep(0.3)
             if m.proc.poll() is None:
-                m.proc.kill()
+                m.reap()
                 m.proc.wait()
+            m.reap()
             r = m.result()
             if r and r.get("outcome") == "violation" and r["violation"].get("case") is not None:
                 minimal = r["violation"]["case"]
